@@ -15,6 +15,34 @@ pub enum Case {
     /// long document: `lines_before` well-formed lines, one offending line, `tail` lines after it; the reader's
     /// recent-bytes window has to be in step with the line numbering
     Long { lines_before: u32, crlf: bool, tail: u8, chunk: u32, reader: bool, radius: u8 },
+    /// one long flow-sequence line with the offending item `items_before` items in, on line `line_no`
+    Wide { line_no: u8, items_before: u32, items_after: u32, reader: bool, radius: u8 },
+}
+
+pub fn wide_doc(line_no: u8, items_before: u32, items_after: u32) -> String {
+    let mut s = String::new();
+    for i in 1..line_no {
+        s.push_str(&format!("# comment {}\n", i));
+    }
+    s.push_str("v: [");
+    for _ in 0..items_before {
+        s.push_str("1, ");
+    }
+    s.push_str("oops");
+    for _ in 0..items_after {
+        s.push_str(", 1");
+    }
+    s.push_str("]\nw: 2\nx: 3\ny: 4\n");
+    s
+}
+
+#[derive(Debug, Deserialize)]
+#[allow(dead_code)]
+struct WideDoc {
+    v: Vec<u32>,
+    w: u32,
+    x: u32,
+    y: u32,
 }
 
 pub fn long_doc(lines_before: u32, crlf: bool, tail: u8) -> String {
@@ -402,6 +430,39 @@ impl Prop for C17 {
                     }
                 }
             }
+            Case::Wide { line_no, items_before, items_after, reader, radius } => {
+                let text = wide_doc(*line_no, *items_before, *items_after);
+                let r = RADII[*radius as usize];
+                let mut o = serde_saphyr::Options::default();
+                o.crop_radius = r;
+                let res = guarded(|| {
+                    if *reader {
+                        serde_saphyr::from_reader_with_options::<_, WideDoc>(ScheduleReader::fixed(text.as_bytes(), 4096), o)
+                    } else {
+                        serde_saphyr::from_str_with_options::<WideDoc>(&text, o)
+                    }
+                });
+                v.execs = 1;
+                let what = format!("flow sequence line {} with `oops` after {} items and {} items after it via {} (radius {})", line_no, items_before, items_after, if *reader { "from_reader" } else { "from_str" }, r);
+                match res {
+                    Err(p) => v.fail("panic", format!("{}: {}", what, p)),
+                    Ok(Ok(_)) => v.fail("expected_error", format!("{}: accepted", what)),
+                    Ok(Err(e)) => {
+                        v.nontrivial = true;
+                        v.classes.push("wide_line");
+                        let want = (*line_no as u64, 5 + 3 * *items_before as u64);
+                        match e.location() {
+                            Some(l) if (l.line(), l.column()) == want => {}
+                            other => {
+                                v.fail("wide_line_error_position", format!("{}: `oops` is at {:?} but the error reports {:?}", what, want, other.map(|l| (l.line(), l.column()))));
+                                return v;
+                            }
+                        }
+                        judge(&text, &e, r, *reader, &mut v, &what);
+                        v.outcome = hash64(&(*reader, v.classes.clone()));
+                    }
+                }
+            }
             Case::Long { lines_before, crlf, tail, chunk, reader, radius } => {
                 let text = long_doc(*lines_before, *crlf, *tail);
                 let r = RADII[*radius as usize];
@@ -449,6 +510,28 @@ impl Prop for C17 {
     fn shrink(&self, c: &Case) -> Vec<Case> {
         let mut out = Vec::new();
         match c {
+            Case::Wide { line_no, items_before, items_after, reader, radius } => {
+                let mk = |ln: u8, ib: u32, ia: u32, rd: bool, ra: u8| Case::Wide { line_no: ln, items_before: ib, items_after: ia, reader: rd, radius: ra };
+                for ib in [items_before / 2, items_before.saturating_sub(1)] {
+                    if ib != *items_before {
+                        out.push(mk(*line_no, ib, *items_after, *reader, *radius));
+                    }
+                }
+                for ia in [items_after / 2, items_after.saturating_sub(1)] {
+                    if ia != *items_after {
+                        out.push(mk(*line_no, *items_before, ia, *reader, *radius));
+                    }
+                }
+                if *line_no > 1 {
+                    out.push(mk(line_no - 1, *items_before, *items_after, *reader, *radius));
+                }
+                if *reader {
+                    out.push(mk(*line_no, *items_before, *items_after, false, *radius));
+                }
+                if *radius != 4 {
+                    out.push(mk(*line_no, *items_before, *items_after, *reader, 4));
+                }
+            }
             Case::Long { lines_before, crlf, tail, chunk, reader, radius } => {
                 let mk = |lb: u32, cr: bool, tl: u8, rd: bool, ra: u8| Case::Long { lines_before: lb, crlf: cr, tail: tl, chunk: *chunk, reader: rd, radius: ra };
                 for lb in [lines_before / 2, lines_before.saturating_sub(1)] {
@@ -516,6 +599,9 @@ impl Prop for C17 {
                 if *reader { "from_reader" } else { "from_str" },
                 RADII[*radius as usize]
             ),
+            Case::Wide { line_no, items_before, items_after, reader, radius } => {
+                format!("{}|wide line={} items_before={} items_after={}|{}|radius={}", clause, line_no, items_before, items_after, if *reader { "from_reader" } else { "from_str" }, RADII[*radius as usize])
+            }
             Case::Long { lines_before, crlf, tail, chunk, reader, radius } => {
                 format!("{}|long lines_before={} tail={}|{}|{}|chunk={}|radius={}", clause, lines_before, tail, if *crlf { "CRLF" } else { "LF" }, if *reader { "from_reader" } else { "from_str" }, chunk, RADII[*radius as usize])
             }
@@ -596,6 +682,21 @@ pub fn run(ctx: &Ctx) -> i32 {
                     }
                     for radius in ctx.tier.pick(vec![4u8], vec![1u8, 4]) {
                         cases.push(Case::Long { lines_before: lb, crlf, tail, chunk, reader, radius });
+                    }
+                }
+            }
+        }
+    }
+    // (d) wide lines: the offending item anywhere on a long flow-sequence line, on every line number up to 6
+    for line_no in 1..=6u8 {
+        for &ib in ctx.tier.pick(&[0u32, 1, 2, 20, 22, 40, 100, 1400, 3000][..], &[0u32, 1, 2, 3, 10, 20, 21, 22, 23, 40, 41, 42, 43, 44, 100, 700, 1365, 1366, 1400, 3000, 6000][..]) {
+            for &ia in &[0u32, 1, 30, 1500] {
+                for reader in [false, true] {
+                    for radius in 0..RADII.len() as u8 {
+                        if ctx.tier == Tier::Quick && reader && radius != 4 {
+                            continue;
+                        }
+                        cases.push(Case::Wide { line_no, items_before: ib, items_after: ia, reader, radius });
                     }
                 }
             }
